@@ -287,22 +287,23 @@ PROPS = {
         model_limits='Validate/fee handling of the five transaction kinds, the Ethereum side (whether the external transaction exists and is final: the witnesses\' off-chain jobs) and the job store are outside the model; negative VoteIndex, a contract-creation payload, a redeem payload without the selector and an ERC20 lock whose transfer receiver is not the ERC contract panic in the handlers (modelled as Res.panic, never sent by this engine: C18); the supply cap is checked at submission only, not at mint; an ERC20 redeem addressed to the ERC contract can never be finalized (burnERC20Tokens looks the token up by tx.To()) and a failing ERC20 tracker is never archived — modelled as in the code, liveness is not part of the property'),
     'C11': dict(
         lean_modules=['OLP.Props.C11'], namespaces=['OLP.Props.C11'],
-        required_theorems=['frozen_blocks_all_three', 'pending_allegation_blocks_unstake', 'withdraw_needs_bounded',
+        required_theorems=['frozen_blocks_all_three', 'frozen_owner_cannot_withdraw', 'pending_allegation_blocks_unstake', 'withdraw_needs_bounded',
                            'bounded_changes_only_by_own_withdraw', 'endBlock_credits_current_height', 'schedule_only_from_unstake',
                            'unlock_exactly_at_maturity', 'conservation', 'bounded_nonneg', 'withdrawn_le_staked_minus_penalty',
-                           'paid_out_le_paid_in_minus_penalty', 'int64_guard_is_necessary', 'tot_eq_sum_vd_partial',
-                           'eff_eq_sum_vd_partial', 'record_matches_validator_partial', 'only_stake_address_holds_stake_partial',
-                           'restake_after_zero_deletes_record', 'slash_dropped_by_purge_rule'],
+                           'paid_out_le_paid_in_minus_penalty', 'int64_guard_is_necessary', 'tot_eq_sum_vd',
+                           'eff_eq_sum_vd', 'record_matches_validator', 'only_stake_address_holds_stake',
+                           'slash_charges_current_stake_address', 'restake_after_zero_keeps_record', 'slash_survives_purge',
+                           'powerless_record_deleted_when_settled'],
         run=run_c11, replay=replay_olh('stake'), level='proof',
         assumptions=[
             'the stake model OLP/Stake/Model.lean (ports of data/delegation/store.go, action/staking/{stake,unstake,withdraw}.go incl. Validate, HandleStake/HandleUnstake, the deletion / purge / UpdateWithdrawReward / verdict part of GetEndBlockUpdate, fetchPostponedUnstakes) is tied to the working tree by the `stake` engine: every CheckTx, DeliverTx, BeginBlock and EndBlock of the generated histories is re-run statelessly by the compiled model from the decoded pre-state records and must give the same result class and post-state records',
-            'which validators the election purges and which validators the allegation tally finds guilty in an EndBlock are inputs of the model (subjects of C10 / C19); the harness reads them off the implementation; likewise the frozen set and the allegation requests visible to CheckRequestExists',
+            'which validators the election purges, which records it allows to be deleted once without power (not in the last commit, inactive for more than two blocks) and which validators the allegation tally finds guilty in an EndBlock are inputs of the model (subjects of C10 / C19); the harness reads them off the implementation (votes, status records, request tombstones); likewise the frozen set, the validator records the store iteration enumerates, and the allegation requests visible to CheckRequestExists',
             'the penalty of a guilty verdict is a big.Float expression; it enters the theorems as a parameter function with 0 <= pen t <= t and is instantiated with round-half-up of 30 % (the options of the generated genesis), compared with the implementation on every verdict',
-            'clause 4 (validator record = sum of locked amounts) is false of the code (KF-C11-1, KF-C11-2): the _partial theorems assume along the run that no successful stake names a validator whose previous-block record has no power or another stake address, that no validator is found guilty and purged in the same EndBlock, and the supply bound staking < 2^63; the maturity theorem assumes the maturity option is never negative and at least 1 during block 1 (governance admits 109200..468000 only)',
+            'clause 4 (validator record = sum of locked amounts) is proved at full strength: the three defects found by this engine are repaired (KF-C11-1 acb5e5c, KF-C11-2 d8b47b0, KF-C11-3 ebb3d1d + 7abde80) and no hypothesis forced by a defect is left; the remaining hypotheses are well-formedness: verdict lists without duplicates (CleanTracker), a finite address universe, the supply bound staking < 2^63 (calculatePower is Int64()), genesis entries with sane amounts and one stake address per validator, 0 <= penalty <= locked total; the maturity theorem assumes the maturity option is never negative and at least 1 during block 1 (governance admits 109200..468000 only)',
             'genesis Staking entries are modelled as genesisStake transactions of block 1 with amounts in [0, 2^63); a maturing amount loaded from the genesis document (DelegationState.MatureAmounts) is not modelled',
             'SetMatureAmounts sorts with sort.Slice, which is a stable insertion sort up to 12 entries; the model sorts stably (longer maturing lists of one height with equal addresses are outside the correspondence)',
         ],
-        model_limits='the withdrawable amount is keyed by delegator only, so the frozen guard of WITHDRAW is by named validator (theorem frozen_guard_is_by_named_validator; counted by the harness, not flagged); the unstake guard against pending allegations cannot see a request created earlier in the same block (State.IterateRange enumerates committed keys only; counted, not part of the property as stated); fee handling and every other balance movement are environment (Tx.credit)'),
+        model_limits='the frozen-owner guard of WITHDRAW goes over the validator records the store iteration enumerates (records that existed at the last commit; a record created in the running block cannot be frozen, STAKE refuses a frozen validator); the unstake guard against pending allegations cannot see a request created earlier in the same block (State.IterateRange enumerates committed keys only; counted, not part of the property as stated); fee handling and every other balance movement are environment (Tx.credit)'),
     'C13': dict(
         lean_modules=['OLP.Props.C13'], namespaces=['OLP.Props.C13'],
         required_theorems=['consumed_le_pulled', 'credited_le_consumed', 'credited_le_pulled', 'absent_not_credited', 'consumed_eq_recorded',
